@@ -12,9 +12,18 @@ namespace cv {
 template <typename VecT, typename T>
 DISPENSO_INLINE ConVecIterBase<VecT, T>::ConVecIterBase(const VecT* vec, cv::BucketInfo info)
     : vb_(reinterpret_cast<uintptr_t>(vec) | info.bucket),
-      bucketStart_(vec->buffers_[info.bucket].load(std::memory_order_relaxed)),
-      bucketPtr_(bucketStart_ + info.bucketIndex),
-      bucketEnd_(bucketStart_ + info.bucketCapacity) {}
+      bucketStart_(vec->buffers_[info.bucket].load(std::memory_order_relaxed)) {
+  // Any position other than the very first one is at or below size(), so its bucket either exists or
+  // is being allocated right now by a concurrent grower (size_ is advanced before the bucket is
+  // published; the bucket holding position size() is always allocated ahead).  Wait for it, as the
+  // growers themselves do: an iterator built on a null bucket never compares equal to the real
+  // position once the bucket exists.  Only position 0 may keep a null bucket (moved-from vector).
+  while (DISPENSO_EXPECT(!bucketStart_ && (info.bucket | info.bucketIndex), 0)) {
+    bucketStart_ = vec->buffers_[info.bucket].load(std::memory_order_acquire);
+  }
+  bucketPtr_ = bucketStart_ + info.bucketIndex;
+  bucketEnd_ = bucketStart_ + info.bucketCapacity;
+}
 
 template <typename VecT, typename T, bool kIsConst>
 DISPENSO_INLINE ConcurrentVectorIterator<VecT, T, kIsConst>&
